@@ -175,6 +175,32 @@ let judge_remove x f got =
     | _, Some (e', rest') -> fail ("ok some " ^ hx e' ^ " " ^ hx rest')
     | _, None -> fail "spec"
 
+(* ------------------------------------------------------------------ Karatsuba square root kernel (hook) *)
+let w64 = zi 64
+let judge_ksqrt n a got =
+  let ni = Zar.to_int n in
+  let m = Zar.pow (zi 2) (64 * ni) in
+  let s = Zar.sqrt a in
+  let r = Zar.sub a (Zar.mul s s) in
+  let want = Printf.sprintf "ok %s %s %s" (hx s) (hx (Zar.rem r m)) (hx (Zar.div r m)) in
+  let asis = res_text (fun ((s, rlo), c) -> hx s ^ " " ^ hx rlo ^ " " ^ (if c then "1" else "0")) (ksqrt w64 (ksqrt_fuel n) n a) in
+  let odd = if ni land 1 = 1 then "odd" else "even" in
+  (* which branches the top level of the recursion takes (from the mathematics of the algorithm) *)
+  let path =
+    if ni <= 2 then "base" else
+    let split = ni / 2 in
+    let l = Zar.pow (zi 2) (64 * split) in
+    let hi = Zar.shift_right a (128 * split) in
+    let s1 = Zar.sqrt hi in
+    let r1 = Zar.sub hi (Zar.mul s1 s1) in
+    let b1 = Zar.rem (Zar.shift_right a (64 * split)) l and b0 = Zar.rem a l in
+    let d = Zar.add (Zar.mul r1 l) b1 in
+    let q = Zar.div d (Zar.mul (zi 2) s1) and u = Zar.rem d (Zar.mul (zi 2) s1) in
+    let r = Zar.sub (Zar.add (Zar.mul u l) b0) (Zar.mul q q) in
+    (if Zar.geq r1 (Zar.pow (zi 2) (64 * (ni - split))) then "T" else "t") ^ (if Zar.equal q l then "Q" else "q")
+    ^ (if Zar.sign r < 0 then "C" else "c") ^ (if Zar.geq u s1 then "U" else "u") in
+  expect ~extra:(Printf.sprintf "cls=ksqrt-%s-n%d path=ksqrt-%s " odd (min 9 ni) path ^ same asis got) want got
+
 let ty_bits t = match t with "u8" | "i8" -> 8 | "u16" | "i16" -> 16 | "u32" | "i32" -> 32 | "u128" | "i128" -> 128 | _ -> 64
 
 let judge op args got =
@@ -193,7 +219,10 @@ let judge op args got =
     | "psqrt" -> expect ("ok " ^ hx (Zar.sqrt (a 1))) got
     | "usqrt_rem" -> let (r, e) = sqrt_rem_spec (a 0) in
         (* multi-word values: the pre-/post-shift model around the kernel contract *)
-        let fid = if bits (a 0) > 128 then (let (r', e') = sqrt_rem_large_gen true (zi 64) (a 0) in " " ^ same ("ok " ^ hx r' ^ " " ^ hx e') got) else "" in
+        let fid = if bits (a 0) > 128 then (
+            let (r', e') = sqrt_rem_large_gen true (zi 64) (a 0) in
+            let full = res_text (fun (r, e) -> hx r ^ " " ^ hx e) (sqrt_rem_large_asis w64 (a 0)) in
+            " " ^ (if split_ws full = got then same ("ok " ^ hx r' ^ " " ^ hx e') got else "asis=diff")) else "" in
         expect ~extra:(Printf.sprintf "cls=sqrtrem-w%d" (min 9 ((bits (a 0) + 63) / 64)) ^ fid) ("ok " ^ hx r ^ " " ^ hx e) got
     | "psqrt_rem" -> let (r, e) = sqrt_rem_spec (a 1) in expect ("ok " ^ hx r ^ " " ^ hx e) got
     | "isqrt" -> if Zar.sign (a 0) < 0 then expect ~nt:false "panic RootNegative" got else expect ("ok " ^ hx (Zar.sqrt (a 0))) got
@@ -223,6 +252,7 @@ let judge op args got =
           else judge_log2_value ~cls:("fbig" ^ Zar.to_string base) sg bp got
     | "rlog2b" | "relog2b" -> judge_log2_value ~cls:"ratio" (a 0) (a 1) got
     | "remove" -> judge_remove (a 0) (a 1) got
+    | "ksqrt" -> judge_ksqrt (n 0) (a 1) got
     | _ -> fail ("unknown-op-" ^ op)
   in
   v
